@@ -118,6 +118,35 @@ func runC16(tier string, seed uint64, out *Out) {
 		out.Line("c16 cmp3 %s %s %s %s %s %s %s", hx(t1), hx(k1), hx(s1), hx(t2), hx(k2), hx(s2),
 			goCompare(mkName(t1, k1, s1), mkName(t2, k2, s2)))
 	}
+	// (3') the same kind of names handed over in buffers the caller re-uses (a name assembled in a
+	// scratch slice, as a lookup loop or a decoder does): the order is a function of the bytes
+	scratchA := make([]byte, 0, 64)
+	scratchB := make([]byte, 0, 64)
+	nr := 3000
+	if tier != "quick" {
+		nr = 60000
+	}
+	rngR := NewRNG(seed, "c16-reuse")
+	for i := 0; i < nr; i++ {
+		// same total length, commas in different places, so that stale positions would matter
+		t := rngR.Bytes(2, nocomma)
+		mk := func() ([]byte, []byte) {
+			k := rngR.Bytes(5, full)
+			sfx := rngR.Bytes(8-len(k), nocomma)
+			for len(k)+len(sfx) < 8 {
+				sfx = append(sfx, '1')
+			}
+			return k, sfx
+		}
+		k1, s1 := mk()
+		k2, s2 := mk()
+		scratchA = append(scratchA[:0], mkName(t, k1, s1)...)
+		scratchB = append(scratchB[:0], mkName(t, k2, s2)...)
+		out.Line("c16 cmp3 %s %s %s %s %s %s %s", hx(t), hx(k1), hx(s1), hx(t), hx(k2), hx(s2), goCompare(scratchA, scratchB))
+		if i%3 == 0 {
+			out.Line("c16 cmp3 %s %s %s %s %s %s %s", hx(t), hx(k1), hx(s1), hx(t), hx(k1), hx(s1), goCompare(scratchA, scratchA))
+		}
+	}
 	// (4) lookup search keys, including the MaxInt16 truncation
 	for _, t := range [][]byte{[]byte("t"), []byte("ns:table"), make([]byte, 200)} {
 		for _, kl := range []int{0, 1, 5, 32000, 32767 - len(t) - 4, 32767 - len(t) - 3, 32767 - len(t) - 2, 32767, 40000} {
